@@ -112,6 +112,15 @@ func main() {
 
 func runProperty(id string, spec *propSpec, tier, repo, verif, overlayPath, onlyRule string, noEv bool, seed int) (code int) {
 	start := time.Now()
+	// watchdog: an analysis that does not terminate does not pass
+	limit := 10 * time.Minute
+	if tier == "thorough" {
+		limit = 45 * time.Minute
+	}
+	time.AfterFunc(limit, func() {
+		fmt.Printf("VIOLATION property=%s replay=%s\n  engine/undecided: analysis exceeded %s\n", id, filepath.Join(verif, "evidence", id+".violations.json"), limit)
+		os.Exit(1)
+	})
 	fail := func(msg string) int {
 		// A check that cannot decide does not pass.
 		evDir := filepath.Join(verif, "evidence")
@@ -223,7 +232,19 @@ func runProperty(id string, spec *propSpec, tier, repo, verif, overlayPath, only
 	if noEv {
 		r.finalizeCounts()
 		bad := 0
+		knownKeys := map[string]bool{}
+		if fs, err := loadFindings(verif); err == nil {
+			for _, f := range fs {
+				if f.Status == "known" && f.Property == id {
+					knownKeys[f.Key] = true
+				}
+			}
+		}
 		for _, o := range r.Obls {
+			if !o.OK && knownKeys[o.Key] {
+				fmt.Printf("KNOWN %s | %s\n", o.Key, o.Pos)
+				continue
+			}
 			if !o.OK {
 				bad++
 				fmt.Printf("BAD %s | %s | %s\n", o.Key, o.Pos, o.Detail)
